@@ -40,6 +40,10 @@ CLAIMED['C02'] = dict(
    text='Every encoder output is fed to the independent decoder written in Coq from the format documents, in strict mode (match distances below the declared dictionary size); it recomputes all size fields, CRC32s, Check, padding, Index and Backward Size, so acceptance with the exact input recovered and every byte consumed means the metadata is truthful. Coq theorems (no axioms): integer encoding canonical; the output-size bound functions are sufficient for the uncompressed-chunk fallback and wrap-free for every n; their model is checked against a table regenerated from the library on every run (thresholds by bisection). Single-call encoders are run with exactly bound(n) bytes on incompressible data around every 64 KiB boundary; multi-MiB outputs are walked chunk by chunk.',
    note='PARTIAL: that every real encoder output is accepted is explored, not proved. Trusted: Coq kernel+vm_compute, gen_bounds translator, extraction, driver glue.',
    technique='Coq proof of bound arithmetic + independent Coq specification decoder as validity oracle', ref='§6 C02')
+CLAIMED['C13'] = dict(
+   text='The list-of-records model named by the property is written in Coq (IndexModel.v) with theorems (no axioms) for every model value: refused operations change nothing, accepted appends respect the format limits, concatenation = list append with additive totals, iteration visits every Block exactly once in order, locate is sound and complete. The real lzma_index API is run against the extracted model on random operation histories (sizes from the whole VLI range, overflow attempts, stream flags/padding, cat, dup, prealloc 1-3 with 511/512/513/1025 records to force many tree groups, all queries, iteration in four modes, locate at every boundary +-1, encode/decode); lzma_file_info_decoder is run on generated multi-Stream padded files under five read-chunk policies, its index compared with the ground truth, every Block decoded at the offsets it gives, seeks bounded by the file size; xz --list totals compared.',
+   note='PARTIAL: the AVL tree / record groups and the file_info state machine are not modelled (tied by observable results only). A genuine defect found here (lzma_index_dup lost the check mask) was repaired with a fix: commit.',
+   technique='Coq list model + theorems; differential history correspondence against the extracted model', ref='§6 C13')
 REASONS_PENDING = 'not yet built in this round (work in progress; see DESIGN.md §10 order of work)'
 props = [json.loads(l) for l in open(os.path.join(V, 'properties.jsonl'))]
 checks, na = [], []
